@@ -431,16 +431,25 @@ class NetworkService(ModelElement):
         link between them
         """
         assert(isinstance(ns, NetworkService))
-        # see if they peer
-        sp = self.topo.graph_model.get_nodes_on_shortest_path(node_a=self.node_id, node_z=ns.node_id)
-        if len(sp) == 0:
+        # see if they peer: a ServicePort of this service linked to a ServicePort of the other service
+        # (any path between the two services, e.g. through a node they both connect to, is not a peering)
+        other_ids = {x.node_id for x in ns.interface_list}
+        sp = None
+        for own_if in self.interface_list:
+            if sp is not None or own_if.type != InterfaceType.ServicePort:
+                continue
+            for peer_if in own_if.get_peers(itype=InterfaceType.ServicePort) or []:
+                if peer_if.node_id in other_ids:
+                    sp = (own_if.node_id, peer_if.node_id)
+                    break
+        if sp is None:
             raise TopologyException(f"Network services {self.name} and {ns.name} do not peer!")
         # remove ConnectionPoints and link between them
-        self.topo.graph_model.remove_cp_and_links(node_id=sp[1])
-        ns.topo.graph_model.remove_cp_and_links(node_id=sp[-2])
+        self.topo.graph_model.remove_cp_and_links(node_id=sp[0])
+        ns.topo.graph_model.remove_cp_and_links(node_id=sp[1])
         # update interface lists
-        self._interfaces = list(filter((lambda x: x.node_id != sp[1]), self._interfaces))
-        ns._interfaces = list(filter((lambda x: x.node_id != sp[-2]), ns._interfaces))
+        self._interfaces = list(filter((lambda x: x.node_id != sp[0]), self._interfaces))
+        ns._interfaces = list(filter((lambda x: x.node_id != sp[1]), ns._interfaces))
 
     def copy_to_peer_labels(self) -> None:
         """
